@@ -174,8 +174,27 @@ def power(a, n):
             k = int(n - Fr(1, 2)) if n > 0 else int(n + Fr(1, 2))
             s = sqrt(a)
             return power(a, k) * s if n > 0 else power(a, k) * s.inv()
+        if 2 < n.denominator <= 6 and Q.of(a).is_real:
+            return _root_atom(Q.of(a), n)
         return _pow_atom(a, Q(n))
     raise TypeError('power exponent %r' % (n,))
+
+
+def _root_atom(a, n):
+    """a**(p/q) for a > 0: positive atom v with v^q == a^p"""
+    k = ('root', _key(a), n)
+    if k in _POW:
+        return _POW[k]
+    v = CTX.new('root')
+    vq = Q(v)
+    CTX.axiom(v > 0, 'x**(p/q) atom v > 0 with v^q = x^p (x > 0 assumed)')
+    p_, q_ = n.numerator, n.denominator
+    lhs = power(vq, q_)
+    rhs = power(a, p_)
+    for c in (lhs - rhs).is_zero_conds():
+        CTX.axiom(c, None)
+    _POW[k] = vq
+    return vq
 
 
 def _pow_atom(a, n):
